@@ -26,8 +26,8 @@ PROPS = {
   'rule': 'rapidcheck choice strings -> (publication time with boundary bias 0,1,2^32-1,2^32,2^63,2^64-1; algorithm among all registered ids; digest '
           'bytes) -> reference string; each case checks the full corruption neighbourhood of that string (counts in sanity_counters). Every case is '
           'non-trivial (it contains corruptions); distinct = distinct (algorithm, time, string prefix).',
-  'quick': {'cases': 96, 'max_size': 100, 'wall_s': 600},
-  'thorough': {'cases': 4000, 'max_size': 100, 'wall_s': 1800},
+  'quick': {'cases': 960, 'max_size': 100, 'wall_s': 600},
+  'thorough': {'cases': 16000, 'max_size': 100, 'wall_s': 1800},
   'essential_classes': ['candidates:substitution', 'candidates:transposition', 'candidates:byte-value', 'candidates:algorithm-byte', 'encode:ok'],
   'assumptions': ['reference base-32 / CRC-32 / algorithm table correct (known-answer self-test)'],
  }, 'C03': {
